@@ -11,6 +11,8 @@ CLAIMED = {
          "TLA+ model checking + spec->code edge replay + trace validation"),
  "C08": ("model_checking", "6 C08", "TLC: all batches of MC_C08 x options x id patterns; every transition replayed with per-item committed snapshots; random batches validated by TraceEngine.tla (shape, echo, stop/continue/undo, fail-clean, told)",
          "TLA+ model checking + spec->code edge replay + trace validation"),
+ "C12": ("model_checking", "6 C12", "TLC: MC_C12 receive-loop model over all plans (frames x cut patterns x stream endings) with invariants one-response-per-frame / order / engine-entered-only-for-decoded; every plan executed on a real KmipSession whose transport delivers exactly those recv() pieces; grammar-aware mutation corpus in bad*-then-good sequences under several chunkings judged against the real decoder in isolation; every response validated against TTLV.tla + KmipEnvelope.tla by TLC; maximum-response-size sweep",
+         "TLA+ model checking of the receive loop + one real session run per TLC plan + TLC byte-level validation of responses"),
  "C13": ("model_checking", "6 C13", "TLC: NoInternalError over the grid of MC_C13 (7 object types x lifecycle states x ~300-cell parameter menu x versions); one real execution per grid cell from the real object in that state; random well-typed requests in all versions; verdict = observed General Failure / internal-error log record, validated by TraceEngine.tla",
          "TLA+ model checking of the grid + one real execution per TLC-enumerated cell + trace validation"),
  "C14": ("model_checking", "6 C14", "TLC: MC_C14 stores x filter conjunctions x paging x requesters checked against the declarative LocateSet/order/page predicates; every Locate transition replayed; random stores of 10-20 objects with random filter conjunctions and paging validated by TraceEngine.tla",
@@ -33,7 +35,6 @@ NOT_YET = {
  "C06": "check not built yet in this round",
  "C09": "check not built yet in this round",
  "C10": "check not built yet in this round",
- "C12": "check not built yet in this round",
  "C19": "check not built yet in this round",
  "C20": "check not built yet in this round",
 }
